@@ -49,7 +49,8 @@ def gen_cases(ctx):
     for i, (b, th, shp) in enumerate(fixed):
         c = [s // 2 for s in shp]
         sc = {"shape": shp, "T": rng.randint(8, 12), "bounds": b, "pml": th,
-              "sources": [{"pos": c, "pol": i % 3}, {"pos": [c[0], c[1] - 1, c[2]], "pol": (i + 1) % 3, "kind": "mdipole"}],
+              "sources": [{"pos": c, "pol": i % 3, "switch": [{}, {"interval": 2}, {"fixed_on_time_steps": [1, 2, 4, 5, 7]}][i % 3]},
+                          {"pos": [c[0], c[1] - 1, c[2]], "pol": (i + 1) % 3, "kind": "mdipole", "switch": [{"interval": 3}, {}, {"fixed_on_time_steps": [0, 3, 4, 6]}][i % 3]}],
               "slab": {"lo": [c[0] - 1, c[1] - 1, c[2] - 1], "hi": [c[0] + 1, c[1] + 1, c[2] + 1], "eps": 2.0, "mu": 1.5 if i % 2 else 1.0}}
         yield {"id": f"run{i}", "kind": "run", "scene": sc}
     ctx.exhaustive = False
